@@ -74,9 +74,10 @@ func formatValue(val any) string {
 	if mapVal, ok := val.(map[string]any); ok {
 		buffer.WriteString("{\n")
 
-		for key, value := range mapVal {
+		// sorted keys: the generated code must not depend on map iteration order
+		orderedmap.FromMap(mapVal).Iterate(func(key string, value any) {
 			buffer.WriteString(fmt.Sprintf("\t%s: %s,\n", key, formatValue(value)))
-		}
+		})
 
 		buffer.WriteString("}")
 
